@@ -77,8 +77,10 @@ CHECKS = {
         "text": "Theorems about the glue around compress/gzip with the library as an explicit oracle: Decompress succeeds iff the oracle read the whole "
                 "stream with valid checksum and then returns the full content, error otherwise (never truncated data as success), compress-then-"
                 "decompress identity under the oracle's soundness, allocation bounded by 1032*len+512, and the frame-level flag rule (gzip flag iff "
-                "threshold != 0 and reached; body = compressor output) from the regenerated threshold condition. The real Decompress is compared with "
-                "the standard reader's verdict on every truncation, corruptions, wrong trailers, multi-member streams.",
+                "threshold != 0 and reached; body = compressor output) from the regenerated threshold condition, for every packet whatever flag it "
+                "carried into Pack (relayed packets: defect D22, repaired). The real Decompress is compared with "
+                "the standard reader's verdict on every truncation, corruptions, wrong trailers, multi-member streams; relayed packets, SetLevel and "
+                "compressed client traffic are exercised too.",
         "design_ref": "DESIGN.md section 7, C10",
         "note": CODEC_NOTE + "DEFLATE/CRC-32 are compress/gzip's (trusted, used as the oracle). Concurrent pool use: sampled schedules only.",
         "technique": "Lean 4 proof of the gzip glue over an oracle + differential run against the standard library reader + regenerated threshold condition",
